@@ -153,6 +153,10 @@ class Verdict:
         self.known = {f['key']: f for f in load_findings() if f['property'] == pid and f.get('status') == 'open'}
         self.violations = []   # (key, description, replay_obj)
         self.known_hits = {}
+        if os.path.isdir(REPLAYS):
+            for f in os.listdir(REPLAYS):
+                if f.startswith(pid + '-'):
+                    os.remove(os.path.join(REPLAYS, f))
 
     def add(self, key, description, replay):
         if key in self.known:
